@@ -171,9 +171,10 @@ package core
 //@   ensures shifted: p.currentToken == old(p.peekToken)
 
 //@ func (*Parser) skipComments results (err)
-//@   property C02
+//@   property C02, C06
 //@   requires cpinv(p)
 //@   ensures cpinv(p) && pM(p) <= old(pM(p))
+//@   ensures no_comment_left: !err ==> isnil(p.currentToken) || p.currentToken.Type != TokenComment
 //@   loop 0:
 //@     invariant cpinv(p) && pM(p) <= old(pM(p))
 //@     decreases pM(p)
@@ -199,9 +200,12 @@ package core
 //@   ensures plain_integer_consumes_one_token: !err && istype(obj, Int) ==> p.currentToken == old(p.peekToken) && astype(obj, Int) == strconv.ParseInt(old(p.currentToken.Value), 10, 64)
 //@   ensures reference_is_number_generation: !err && istype(obj, IndirectRef) ==> !isnil(old(p.peekToken)) && old(p.peekToken).Type == TokenInteger && astype(obj, IndirectRef).Number == strconv.ParseInt(old(p.currentToken.Value), 10, 64) && astype(obj, IndirectRef).Generation == strconv.ParseInt(old(p.peekToken.Value), 10, 64)
 
+// comments are legal wherever white space is (ISO 32000 7.2.3): the element loop skips them itself, so the closing
+// bracket is recognised after a trailing comment and an element never starts at a comment token
 //@ func (*Parser) parseArray results (obj, err)
-//@   property C02
+//@   property C02, C06
 //@   requires cpinv(p) && tokW(p.currentToken) == 1
+//@   callsite ParseObject() requires !isnil(p.currentToken) && p.currentToken.Type != TokenComment
 //@   decreases pM(p), 0
 //@   ensures cpinv(p) && pM(p) <= old(pM(p))
 //@   ensures progress: !err ==> pM(p) < old(pM(p))
@@ -209,8 +213,10 @@ package core
 //@     invariant cpinv(p) && pM(p) < old(pM(p))
 //@     decreases pM(p)
 
+// comments are legal wherever white space is (ISO 32000 7.2.3): the element loop skips them itself, so the closing
+// bracket is recognised after a trailing comment and an element never starts at a comment token
 //@ func (*Parser) parseDict results (obj, err)
-//@   property C02
+//@   property C02, C06
 //@   requires cpinv(p) && tokW(p.currentToken) == 1
 //@   decreases pM(p), 0
 //@   ensures cpinv(p) && pM(p) <= old(pM(p))
